@@ -224,6 +224,24 @@ pub fn run(ctx: &Ctx) -> Report {
         }
         Ok(())
     });
+    // discovered-check set-ups at depth 2-3 (quiet moves that uncover a check, double attacks):
+    // the kind of move a forward-pruning shortcut is most likely to mishandle
+    let disc = ctx.tier.pick(3200, 48_000) / ctx.shard_count() as u32;
+    run_prop(ctx, "c11-discovery", disc, 200, (gen::synth_strategy(), 2u32..=3), &mut rep, |(ent, d), rep| {
+        let Some(p) = gen::discovery_pos(&mut Entropy::new(ent)) else {
+            rep.class("start:rejected");
+            return Ok(());
+        };
+        if p.legal_moves().is_empty() || p.legal_moves().len() > 45 {
+            return Ok(());
+        }
+        rep.class("start:discovery-setup");
+        let out = compare(&p.to_fen(), &[], *d, budget, rep)?;
+        if let Some(s) = out.skipped {
+            rep.class(&format!("skipped:{s}"));
+        }
+        Ok(())
+    });
     let cases = ctx.tier.pick(1600, 16_000) / ctx.shard_count() as u32;
     let mix = gen::StartMix { startpos: 1, corpus: 4, synth: 6, pattern: 6 };
     run_prop(ctx, "c11", cases, 300, strategy(), &mut rep, |c, rep| {
@@ -283,7 +301,7 @@ pub fn replay(ctx: &Ctx, case: &Value) -> Report {
 }
 
 pub const LEVEL: &str = "exploration";
-pub const RULE: &str = "cases = (position, game history, depth): every corpus FEN at depth 1-2 (quick) / 1-3 (thorough) plus proptest-generated cases from corpus / synthesised / pattern starts (mate nets, stalemates, fifty-move clocks 97-120, sparse endgames), half of them reached by up to 40 plies of weighted play whose history is kept (so repetitions are remembered); plus 'check-chain' positions (queens and rooks on an open board with bare kings) at depth 1-2; depth 1-3 everywhere, 4 when the root has <= 14 moves, 5 when <= 8, 6 when <= 5. With caching neutralised (hook H1): engine root score == reference unpruned negamax of the engine's look-ahead game on the oracle board, root entry depth == asked depth, and the chosen move's reference value == the root value (ties allowed). Cases whose reference exceeds its node budget are skipped and counted. Non-trivial = the value is not the static evaluation of the root or the tree contained a mate score, repetition draw, fifty-move draw, check extension, stalemate or quiescence capture; distinct by (start, moves, depth).";
+pub const RULE: &str = "cases = (position, game history, depth): every corpus FEN at depth 1-2 (quick) / 1-3 (thorough) plus proptest-generated cases from corpus / synthesised / pattern starts (mate nets, stalemates, fifty-move clocks 97-120, sparse endgames), half of them reached by up to 40 plies of weighted play whose history is kept (so repetitions are remembered); plus discovered-check set-ups at depth 2-3 and 'check-chain' positions (queens and rooks on an open board with bare kings) at depth 1-2; depth 1-3 everywhere, 4 when the root has <= 14 moves, 5 when <= 8, 6 when <= 5. With caching neutralised (hook H1): engine root score == reference unpruned negamax of the engine's look-ahead game on the oracle board, root entry depth == asked depth, and the chosen move's reference value == the root value (ties allowed). Cases whose reference exceeds its node budget are skipped and counted. Non-trivial = the value is not the static evaluation of the root or the tree contained a mate score, repetition draw, fifty-move draw, check extension, stalemate or quiescence capture; distinct by (start, moves, depth).";
 pub const ASSUMPTIONS: &[&str] = &[
     "the independent rules oracle; the reference negamax in vf/refsearch.rs (no pruning, no ordering, quiescence memoised by position)",
     "hook H1 empties the cache before every probe; the root's own store happens after the last probe, so the root result is read from the public TRANSPOSITION_TABLE",
